@@ -58,8 +58,10 @@ class KexDH:  # pragma: nocover
         self.__hostkey_e = 0  # pylint: disable=unused-private-member
         self.__hostkey_n = 0  # pylint: disable=unused-private-member
         self.__hostkey_n_len = 0  # Length of the host key modulus.
+        self.__hostkey_bits = 0  # Exact size of the host key in bits, when it is known (0 otherwise: the size is then derived from the length in bytes).
         self.__ca_key_type = ''  # Type of CA key ('ssh-rsa', etc).
         self.__ca_n_len = 0  # Length of the CA key modulus (if hostkey is a cert).
+        self.__ca_bits = 0  # Exact size of the CA key in bits, when it is known.
 
     def set_params(self, g: int, p: int) -> None:
         self.__g = g
@@ -85,8 +87,10 @@ class KexDH:  # pragma: nocover
         self.__hostkey_e = 0  # pylint: disable=unused-private-member
         self.__hostkey_n = 0  # pylint: disable=unused-private-member
         self.__hostkey_n_len = 0
+        self.__hostkey_bits = 0
         self.__ca_key_type = ''
         self.__ca_n_len = 0
+        self.__ca_bits = 0
 
         packet_type, payload = s.read_packet(2)
 
@@ -141,6 +145,10 @@ class KexDH:  # pragma: nocover
             # Here is the modulus size & actual modulus of the host key public key.
             hostkey_n, self.__hostkey_n_len, ptr = KexDH.__get_bytes(hostkey, ptr)
             self.__hostkey_n = int(binascii.hexlify(hostkey_n), 16)  # pylint: disable=unused-private-member
+
+            # The size of an RSA key is the bit length of its modulus (the byte length of its encoding is only an approximation: 2040-bit and 2048-bit moduli both take 256 bytes plus a sign byte or not).
+            if self.__hostkey_type.startswith('ssh-rsa'):
+                self.__hostkey_bits = self.__hostkey_n.bit_length()
 
         # If this is a certificate, continue parsing to extract the CA type and key length.  Even though a hostkey type might be 'ssh-ed25519-cert-v01@openssh.com', its CA may still be RSA.
         if self.__hostkey_type.startswith('ssh-rsa-cert-v0') or self.__hostkey_type.startswith('ssh-ed25519-cert-v0'):
@@ -215,6 +223,9 @@ class KexDH:  # pragma: nocover
                 # CA's modulus.  Bingo.
                 ca_key_n, ca_key_n_len, ptr = KexDH.__get_bytes(ca_key, ptr)  # pylint: disable=unused-variable
 
+                if ca_key_type == 'ssh-rsa' and ca_key_n_len > 0:
+                    self.__ca_bits = int(binascii.hexlify(ca_key_n), 16).bit_length()
+
                 if ca_key_type.startswith("ecdsa-sha2-nistp") and ca_key_n_len > 0:
                     self.out.d("Found ecdsa-sha2-nistp* CA key type.")
 
@@ -254,6 +265,8 @@ class KexDH:  # pragma: nocover
 
     # Returns the size of the hostkey, in bits.
     def get_hostkey_size(self) -> int:
+        if self.__hostkey_bits > 0:
+            return self.__hostkey_bits
         return KexDH.__adjust_key_size(self.__hostkey_n_len)
 
     # Returns the CA type ('ssh-rsa', 'ssh-ed25519', etc).
@@ -262,6 +275,8 @@ class KexDH:  # pragma: nocover
 
     # Returns the size of the CA key, in bits.
     def get_ca_size(self) -> int:
+        if self.__ca_bits > 0:
+            return self.__ca_bits
         return KexDH.__adjust_key_size(self.__ca_n_len)
 
     # Returns the size of the DH modulus, in bits.
